@@ -122,6 +122,51 @@ def judge(ctx, registered, script, unknown):
     ctx.count('expansions_equal')
 
 
+def judge_sections(ctx, rng, registered, hashes):
+    """The place where scripts meet the registry: an ExecutionContext built from a script hands out its sections
+    (parameter, storage, code, every view) with the references expanded."""
+    from pytezos.context.impl import ExecutionContext
+    _shape, sections = None, None
+    while _shape != 'script':
+        _shape, sections = make_script(rng, hashes)
+    t = lambda b: G.tree(rng, b, PRIMS_NO_CONST, 256)
+    for name in ('v1', 'v2')[:rng.choice([1, 2])]:
+        sections.append({'prim': 'view', 'args': [{'string': name}, t(2), t(3), [t(6), {'prim': 'DIP', 'args': [[t(4)]]}]]})
+    nrefs = 0
+    for sec in sections:
+        for i in range(1 if sec['prim'] == 'view' else 0, len(sec['args'])):
+            sec['args'][i], k = plant(rng, sec['args'][i], hashes, 0.4)
+            nrefs += k
+    ctx.case(('sections', tuple(hashes), M.encode(sections) if _nfable(sections) else repr(sections)), nontrivial=nrefs > 0)
+    check_sections(ctx, registered, sections)
+
+
+def check_sections(ctx, registered, sections):
+    from pytezos.context.impl import ExecutionContext
+    table = {expr_hash(r): r for r in registered}
+    case = {'registered': registered, 'script': sections, 'via': 'ExecutionContext sections'}
+    try:
+        c = ExecutionContext(script={'code': copy.deepcopy(sections), 'storage': {'prim': 'Unit'}})
+        for r in registered:
+            c.register_global_constant(copy.deepcopy(r))
+    except Exception as e:
+        return ctx.violation('C33|context-from-script-raises', repr(e)[:300], case)
+    for name, raw, getter in (('parameter', c.parameter_expr, c.get_parameter_expr), ('storage', c.storage_expr, c.get_storage_expr),
+                              ('code', c.code_expr, c.get_code_expr), ('view', c.views_expr, c.get_views_expr)):
+        ctx.count('section_getters_called')
+        ctx.count('section_' + name)
+        want = model_resolve(copy.deepcopy(raw), table)
+        try:
+            got = getter()
+        except Exception as e:
+            ctx.violation('C33|section-getter-raises|' + name, repr(e)[:300], case)
+            continue
+        if got != want:
+            ctx.violation('C33|section-not-expanded|' + name, 'got=%r want=%r' % (got, want), case)
+        else:
+            ctx.count('sections_equal')
+
+
 def _nfable(e):
     try:
         M.nf(e)
@@ -172,6 +217,8 @@ def run(ctx):
                  sample={'shape': shape, 'registered': regs[:2], 'script': script} if it < 2 else None)
         ctx.count('shape_' + shape)
         judge(ctx, regs, script, unknown)
+        if it % 5 == 0:
+            judge_sections(ctx, rng, regs[:len(hashes)], hashes)
     # an empty registry must still reject unknown references; constants that are falsy as Python objects expand like any other
     bogus = B.encode(bytes(32), 'expr')
     for script in (const_ref(bogus), [{'prim': 'DROP'}, const_ref(bogus)], {'prim': 'pair', 'args': [{'prim': 'nat'}, const_ref(bogus)]}):
@@ -185,7 +232,10 @@ def run(ctx):
     ctx.require('resolve_calls', 100)
     ctx.require('expansions_equal' if not ctx.violations else 'resolve_calls', 50)
     ctx.require('unknown_hash_cases', 10)
+    ctx.require('section_getters_called', 40)
 
 
 def replay(ctx, case):
+    if case.get('via'):
+        return check_sections(ctx, case['registered'], case['script'])
     judge(ctx, case['registered'], case['script'], case.get('expects_unknown'))
